@@ -1025,17 +1025,23 @@ DIVF = z3.Function("div_abs", RealS, RealS, RealS)
 _signed = set()
 
 
-def abstract_nonlinear(fs):
+PH1 = z3.Function("mul_sym_h1", RealS, RealS)
+PH2 = z3.Function("mul_sym_h2", RealS, RealS)
+PG = z3.Function("mul_sym", RealS, RealS, RealS)
+
+
+def abstract_nonlinear(fs, symmetric=False):
     _signed.clear()
-    return _abstract_nonlinear(fs)
+    return _abstract_nonlinear(fs, symmetric)
 
 
-def _abstract_nonlinear(fs):
+def _abstract_nonlinear(fs, symmetric=False):
     """Replaces products of two or more non-numeral factors (and divisions by non-numerals) by
     applications of uninterpreted functions, arguments in a canonical order.  Every model of the
     original formulas is a model of the abstraction (take mul_abs = *), so `unsat` of the
     abstraction implies `unsat` of the original: sound for discharging, useless for refuting."""
     memo = {}
+    products = {}      # ground products of 3 or 4 factors: their other association orders are asserted equal below
 
     def isnum(x):
         return z3.is_rational_value(x) or z3.is_int_value(x)
@@ -1080,6 +1086,8 @@ def _abstract_nonlinear(fs):
                     acc = rest[0]
                     for c in rest[1:]:
                         acc = MULF(acc, c)
+                    if len(rest) >= 3:
+                        products[tuple(c.get_id() for c in rest)] = (rest, acc)
                     for nn in nums:
                         acc = to_real(nn) * acc
                     r = acc
@@ -1140,6 +1148,21 @@ def _abstract_nonlinear(fs):
                 continue
             _signed.add(t.get_id())
         out += extra
+    # associativity / commutativity beyond pairs: the binary chain of a product is built in the order of the factors' term
+    # ids, which is an accident of creation order; two products whose factors are pairwise equal only *by hypothesis*
+    # (relational clauses: the same result term re-instantiated with other input symbols) may therefore be nested
+    # differently, and the chain has no associativity.  Every ground product of >= 3 factors is additionally equated with a
+    # *symmetric* abstraction  G(sum_i h1(f_i), sum_i h2(f_i))  whose arguments are linear sums (AC in the arithmetic solver).
+    # Sound: interpret h1(f) = log|f| (0 for f = 0), h2(f) = [f < 0] + sqrt(2) [f = 0], G(s, k + m sqrt 2) = 0 if m > 0 else
+    # (-1)^k exp(s); then G(...) is the product, so every model of the original formulas extends to the abstraction.
+    ground_ids = set(ground_subterms(out).keys()) if symmetric else set()
+    for ids, (rest, acc) in (products.items() if symmetric else ()):
+        if acc.get_id() not in ground_ids:
+            continue
+        s1, s2 = PH1(rest[0]), PH2(rest[0])
+        for c in rest[1:]:
+            s1, s2 = s1 + PH1(c), s2 + PH2(c)
+        out.append(acc == PG(s1, s2))
     return out
 
 
